@@ -2,6 +2,7 @@ import RactorModel.Lemmas.FactoryRouters
 import RactorModel.Lemmas.FactoryAffinity
 import RactorModel.Lemmas.FactoryQueuer
 import RactorModel.Lemmas.FactorySlotInst
+import RactorModel.Lemmas.FactoryActors
 
 /-!
 # C14 — Factory routing keeps its promises about where a job runs
@@ -189,6 +190,58 @@ theorem cast_to_busy_queues (e e' : Env) (aid : Nat) (j : Job) (h : e.cast aid j
       simp only [Option.some.injEq] at h; subst h
       exact ⟨rfl, a, rfl, by simpa using hal⟩
 
+/-! ## The worker ACTORS (under `noStaleRun`: finding F4 excluded)
+
+`noStaleRun (init c) steps`: no step kills a live pool worker while one of its `Finished` reports
+still waits in the factory's mailbox — the exact model-level form of the oracle's classifier
+`noStaleCompletion`. The unconditional statements are FALSE of the code (F4, witness below); under
+this hypothesis they are theorems for every configuration and EVERY sequence of operations, as long
+as the factory has not entered `post_stop` (from then on it hands out nothing, `C15.drained_factory_stops`).
+Proof: the coupling invariant `Factory.Core` (`Lemmas/FactoryActors.lean`) between every slot's
+`curr_jobs` and what its actor holds (handler + mailbox) plus the pending `Finished` reports, carried
+through every function of the model. -/
+
+/-- (one job at a time, actor level — `_partial`) a live worker actor never holds more than one job:
+the one its handler runs, or one waiting in its mailbox, never both and never two — the factory hands
+a worker its next job only after that worker's completion report. Holds at every quiescent point and
+at every instant `t` at which an operation is applied. -/
+theorem worker_one_job_at_a_time_partial (c : CaseCfg) (steps : List Step) (t : Nat)
+    (hns : noStaleRun (init c) steps = true) :
+    let w := W.advanceTo t (advanceFuel ((init c).runSteps steps) t) ((init c).runSteps steps)
+    w.stopped = false → ∀ aid a, w.env.getActor aid = some a → a.alive = true → a.heldJobs.length ≤ 1 := by
+  intro w hs aid a g hal
+  exact ((j_at c steps t hns).core hs).held_le_one g hal
+
+/-- … and the job a live worker holds is the one its slot books as in flight (same key), with no
+completion report of that slot pending: actors and bookkeeping agree. -/
+theorem worker_job_is_booked_partial (c : CaseCfg) (steps : List Step) (hns : noStaleRun (init c) steps = true) :
+    let w := (init c).runSteps steps
+    w.stopped = false → ∀ aid a j, w.env.getActor aid = some a → a.alive = true → j ∈ a.heldJobs →
+      a.heldJobs = [j] ∧ ∃ p ∈ w.pool, p.actor = aid ∧ p.wid = a.wid ∧ keysCurr p = [j.key] := by
+  intro w hs aid a j g hal hj
+  obtain ⟨h1, p, hp, h2, h3, h4, _⟩ := ((j_always c steps hns).core hs).held_booked g hal hj
+  exact ⟨h1, p, hp, h2, h3, h4⟩
+
+/-- (affinity, actor level — `_partial`) With key-persistent routing, for every configuration and
+EVERY sequence of operations without a stale completion: two live worker actors never hold (run, or
+have in their mailbox) jobs of the same key at the same time — across pool growth and shrinkage,
+worker replacement, expiry, shedding, drain and a factory held busy. -/
+theorem key_never_on_two_workers_partial (c : CaseCfg) (hr : c.cfg.router = .kp) (steps : List Step)
+    (hns : noStaleRun (init c) steps = true) :
+    let w := (init c).runSteps steps
+    w.stopped = false → ∀ aid1 aid2 a1 a2 j1 j2, w.env.getActor aid1 = some a1 → w.env.getActor aid2 = some a2 →
+      a1.alive = true → a2.alive = true → j1 ∈ a1.heldJobs → j2 ∈ a2.heldJobs → j1.key = j2.key → aid1 = aid2 := by
+  intro w hs aid1 aid2 a1 a2 j1 j2 g1 g2 hal1 hal2 hj1 hj2 hk
+  have hc := (j_always c steps hns).core hs
+  obtain ⟨_, p1, hp1, hpa1, _, hc1, _⟩ := hc.held_booked g1 hal1 hj1
+  obtain ⟨_, p2, hp2, hpa2, _, hc2, _⟩ := hc.held_booked g2 hal2 hj2
+  have : p1 = p2 := by
+    apply affinity_jobs_partial c hr steps j1.key p1 p2 hp1 hp2
+    · simp only [keysCurr, hc1, List.mem_append, List.mem_singleton, true_or]
+    · simp only [keysCurr, hc2, hk, List.mem_append, List.mem_singleton, true_or]
+  subst this
+  exact hpa1.symm.trans hpa2
+
 /-! ### Findings on their concrete witnesses (the model replays them exactly: DIFF = 0 on every run)
 
 F4 — the full affinity statement ("never in progress on two workers") is FALSE of the code. -/
@@ -215,6 +268,10 @@ example : runningKeys ((init f4Case).runSteps f4Steps) = [(1, 7), (2, 7)] := by 
 example : C14.routingOk f4Info ((init f4Case).runSteps f4Steps).env.log = false := by decide +kernel
 /-- … and the history is classified by the finding's classifier -/
 example : noStaleCompletion f4Info ((init f4Case).runSteps f4Steps).env.log = false := by decide +kernel
+/-- … and by the model-level hypothesis of the `_partial` theorems: the kill of actor 0 (step 6) is stale -/
+example : noStaleRun (init f4Case) f4Steps = false := by decide +kernel
+/-- the prefix before the kill is a run the theorems speak about -/
+example : noStaleRun (init f4Case) (f4Steps.take 5) = true := by decide +kernel
 
 /-! F3 (fixed): key-persistent order after growing the pool from 0. On the fixed code the witness
 is handled in dispatch order and satisfies the oracle. -/
@@ -243,6 +300,9 @@ def qSteps : List Step :=
 /-- a job waits and the only worker is busy -/
 example : ((init qCase).runSteps qSteps).queue.length = 1 ∧
     ((init qCase).runSteps qSteps).pool.map (·.isAvailable) = [false] := by decide +kernel
+/-- the hypotheses of the actor-level theorems are satisfiable by a run in which a worker holds a job -/
+example : noStaleRun (init qCase) qSteps = true ∧ ((init qCase).runSteps qSteps).stopped = false ∧
+    (((init qCase).runSteps qSteps).env.actors.map fun a => (a.alive, a.heldJobs.map (·.id))) = [(true, [1])] := by decide +kernel
 example : rrSeq 3 3 7 = [0, 1, 2] := by decide
 example : rrSeq 4 4 1 = [2, 3, 0, 1] := by decide
 example : chooseCustom (fun _ _ => 2 ^ 64 - 1) 5 3 = 0 := by decide
@@ -260,6 +320,9 @@ end C14
 #print axioms C14.one_job_in_flight_per_slot
 #print axioms C14.pending_tracks_jobs
 #print axioms C14.affinity_jobs_partial
+#print axioms C14.worker_one_job_at_a_time_partial
+#print axioms C14.worker_job_is_booked_partial
+#print axioms C14.key_never_on_two_workers_partial
 #print axioms C14.queuer_never_idles
 #print axioms C14.queuer_deque_sound
 #print axioms C14.busy_worker_starts_nothing
